@@ -344,7 +344,7 @@ def h13e(c, U=3):
 
 OUT = ["strategies sharing mutable Python state by other means", "more than 2 orders per strategy / 2 traded levels (H13a)", "more than U updates x 3 strategies (H13b)"]
 HARNESSES = [
-    Harness("H13a", h13a, quick=dict(na=1, nb=1), thorough=dict(na=2, nb=2), pattern="P4 relational (two worlds, same symbolic inputs)", requires=["worlds", "A-filled"],
+    Harness("H13a", h13a, quick=dict(na=1, nb=1), thorough=dict(na=2, nb=1), pattern="P4 relational (two worlds, same symbolic inputs)", requires=["worlds", "A-filled"],
             outside=OUT, max_paths=(400000, 4000000), wall_s=(300, 3000)),
     Harness("H13e", h13e, quick=dict(U=3), thorough=dict(U=4), pattern="P4 relational at loop level + P5 (exception inside a transaction block)",
             requires=["worlds", "exception-in-transaction-block"], outside=OUT, selfcheck=False),
